@@ -16,3 +16,29 @@ for fn, exp in (('crc16_t10dif_base', []), ('crc16_t10dif_copy_base', ['assigns'
     HARNESSES.append(H(fn, ['C04'], 'crc/crc32.c', ['crc/crc_base.c'], enforce=fn, also=['C05', 'C15'],
                        timeout=600, expect=['postcondition', 'loop_invariant_step', 'loop_decreases', 'overflow'] + exp,
                        replay=('crc.c', fn), trusted=[FOLD32]))
+
+# ---- igzip/adler32_base.c
+HARNESSES.append(H('adler32_base_safety', ['C04'], 'crc/adler.c', ['igzip/adler32_base.c'], enforce='adler32_base',
+                   also=['C05', 'C15'], timeout=900, checks_on=['unsigned-overflow'], solver='cadical',
+                   expect=['postcondition', 'loop_invariant_step', 'loop_decreases', 'overflow'],
+                   replay=('crc.c', 'adler32_base_safety')))
+HARNESSES.append(H('adler32_base_func', ['C04'], 'crc/adler.c', ['igzip/adler32_base.c'], enforce='adler32_base',
+                   timeout=1800, kind='bounded', solver='cadical', defines=['ADLER_FUNC', 'ADLER_BND=1024'],
+                   bounds='length <= 1024 (loops closed by loop contracts; the bound keeps the ghost quotient of B below 2^13, the range in which the SAT back end proves uniqueness of division by 65521; the 2^28 chunk loop is not entered)',
+                   expect=['postcondition', 'loop_invariant_step'], replay=('crc.c', 'adler32_base_func'),
+                   trusted=['ghost fold axiom (SA,SB)[i+1]==spec_adler_step((SA,SB)[i],buf[i]) per executed iteration (defines the spec)']))
+
+# ---- composition lemmas over the contracts (harness/crc/crc_compose.c)
+CFILES = ['crc/crc_base.c', 'crc/crc64_base.c', 'igzip/adler32_base.c']
+COMPOSE_TRUST = ['the contract of the replaced function (proved by the harness of the same name)',
+                 'ghost fold axioms S[i+1]==spec_step(S[i],buf[i]) for the three fold arrays (define the spec)']
+for fn in (['crc16_t10dif_base', 'crc32_iscsi_base', 'crc32_ieee_base', 'crc32_gzip_refl_base'] +
+           ['crc64_%s_base' % v for v in ('ecma_refl', 'ecma_norm', 'iso_refl', 'iso_norm', 'jones_refl', 'jones_norm',
+                                          'rocksoft_refl', 'rocksoft_norm')]):
+    HARNESSES.append(H('compose_' + fn, ['C04'], 'crc/crc_compose.c', CFILES, replace=[fn], timeout=600,
+                       expect=['assertion', 'precondition', 'loop_invariant_step'], trusted=COMPOSE_TRUST))
+HARNESSES.append(H('compose_adler32_base', ['C04'], 'crc/crc_compose.c', CFILES, replace=['adler32_base'], timeout=900,
+                   kind='bounded', bounds='n1 + n2 <= 1024 (inherits the length bound of the adler32_base_func contract)',
+                   expect=['assertion', 'precondition', 'loop_invariant_step'], trusted=COMPOSE_TRUST))
+HARNESSES.append(H('crc_init_fin_lemmas', ['C04'], 'crc/crc_compose.c', CFILES, timeout=300, expect=['assertion'],
+                   min_obligations=5))
